@@ -361,6 +361,101 @@ def c06(ctx):
                            "generated statement, not yet proved for all statements")
 
 
+# ------------------------------------------------------------------------------------ C16
+
+def special_mode_cases(ctx, mode, extra):
+    os.makedirs(build.WORK, exist_ok=True)
+    out = os.path.join(build.WORK, f"{mode}-{os.getpid()}.jsonl")
+    rc, o, _ = build.sh([os.path.join(build.BIN, "harness"), "-mode", mode, "-seed", str(ctx.seed), "-out", out] + extra,
+                        timeout=3000)
+    cases = [json.loads(l) for l in open(out)] if os.path.exists(out) else []
+    if os.path.exists(out):
+        os.unlink(out)
+    ctx.obligation(f"harness run ({mode} mode)", rc == 0, o[-2000:])
+    return cases
+
+
+def pairs_from_tokens(toks):
+    """[(key hex, value hex)] from the tokens of name ( 'k' , v , 'k' , v ... )"""
+    if toks is None or len(toks) < 3 or toks[0][0] != "W" or toks[1] != "C28" or toks[-1] != "C29":
+        return None
+    body = toks[2:-1]
+    if not body:
+        return []
+    if len(body) % 4 != 3:
+        return None
+    out = []
+    for i in range(0, len(body), 4):
+        k, c, v = body[i:i + 3]
+        if k[0] != "S" or c != "C2c" or v[0] != "W":
+            return None
+        if i + 3 < len(body) and body[i + 3] != "C2c":
+            return None
+        out.append((k[1:], v[1:]))
+    return out
+
+
+@check("C16")
+def c16(ctx):
+    props.check_props_file(ctx, "Props/C16.v")
+    maxlen = 3 if ctx.quick() else 5
+    cases = special_mode_cases(ctx, "c16", ["-maxlen", str(maxlen), "-n", "600" if ctx.quick() else "30000"])
+    reqs = []
+    for c in cases:
+        fl = corr.tf(c["jsonb"])
+        reqs += [f"(json16 {fl} {c['ops']})", f"(json16 {fl} {c['ops_batch']})", f"(json16 {fl} {c['ops_apply']})"]
+    ans = corr.model_answers(reqs)
+    toks = lex_many([bytes.fromhex(c["sql"][0]) if not c.get("panic") and not c["sql"][0].startswith("ERR") else b"" for c in cases])
+    mism = []
+    ev = 0
+    lens = Counter()
+    for i, c in enumerate(cases):
+        ev += 1
+        nops = c["ops"].count("(")
+        lens[min(nops, 41)] += 1
+        rep = {"history": c["prog"], "sql": c.get("sql"), "spec": c.get("spec")}
+        if c.get("panic"):
+            ctx.violation("the JSON object builder panicked / misbehaved: " + c["panic"], rep)
+            continue
+        plain, batch, apply_ = (a.split(" ") for a in ans[3 * i:3 * i + 3])
+        if plain[0] != "J16" or batch[0] != "J16" or apply_[0] != "J16":
+            ctx.obligation("model decodes every history", False, json.dumps(rep))
+            continue
+        sql = c["sql"]
+        name = "jsonb_build_object" if c["jsonb"] else "json_build_object"
+        # direct evaluation against the ordered-map specification
+        got = pairs_from_tokens(toks[i])
+        want = [tuple(kv.split("=")) for kv in c["spec"].split(":")[1].split(";") if kv]
+        fn_tok = toks[i][0] if toks[i] else None
+        if got != want:
+            ctx.violation("the emitted entries are not the insertion-ordered map of the history", rep)
+        elif fn_tok != "W" + name.encode().hex():
+            ctx.violation("the json/jsonb flavour chosen at creation is not preserved", rep)
+        elif not (sql[0] == sql[1] == sql[2] == sql[3]):
+            ctx.violation("batch form / ApplyIf form is not equivalent to the same sets applied one by one", rep)
+        elif bytes.fromhex(sql[4]) != b"SELECT " + bytes.fromhex(sql[0]):
+            ctx.violation("the history applied to a select's JSON selection renders differently", rep)
+        elif bytes.fromhex(sql[5]) != name.encode() + b"()":
+            ctx.violation("operating on the object changed the base value", rep)
+        # correspondence with the model
+        if not (plain[1][1:] == sql[0] and batch[1][1:] == sql[1] and apply_[1][1:] == sql[2] and plain[2][1:] == sql[4]
+                and plain[3] == batch[3] == apply_[3] == c["spec"]):
+            mism.append({"history": c["prog"], "impl": sql, "model": [plain, batch, apply_]})
+    ctx.obligation("correspondence: model and implementation agree on every history (sql of all forms, abstract state)",
+                   not mism, json.dumps(mism[:2])[:3000])
+    ctx.cov["traces_validated_against_impl"] = len(cases) - len(mism)
+    ctx.cov["evaluations"] = ev
+    ctx.cov["distinct_nontrivial"] = sum(1 for c in cases if c["ops"].count("(") >= 2)
+    ctx.cov["exhaustive_part"] = f"all histories of length <= {maxlen} over 3 keys x {{set, set-if true, set-if false, unset}} x both flavours"
+    ctx.cov["input_distribution"] = {"history_length": {str(k): v for k, v in sorted(lens.items())}}
+    ctx.cov["rule"] = ("exhaustive short histories + random histories up to length 40 over 4 fixed and 20 random keys (empty key, "
+                       "key needing escaping); each run one by one, in batch form (maximal set runs), through ApplyIf(true/false) "
+                       "and as a select's JSON selection; entries read back from the SQL with the PostgreSQL lexer and compared "
+                       "with an independent ordered-map specification; non-trivial = history of >= 2 operations")
+    ctx.cov["samples"] = [{"history": c["prog"][:300], "sql": bytes.fromhex(c["sql"][0]).decode("utf8", "replace")}
+                          for c in cases[50:53] if not c.get("panic")]
+
+
 # ------------------------------------------------------------------------------------ C14
 
 VALIDATION_PREFIXES = ("identifier: invalid", "type: invalid", "case: no conditions given")
